@@ -18,6 +18,7 @@ def run(rep):
     rep.guard(s2, rep, w)
     rep.guard(s12, rep, w)
     rep.guard(s13, rep, w)
+    rep.guard(s14, rep, w)
     import c14
     rep.guard(c14.m2, rep, w)     # a name that is not a local or an upvalue is a global of the module the code was written in, and of no other module
     rep.guard(s3, rep, w)
@@ -208,6 +209,34 @@ def s13(rep, w):
         r.check(bool(fresh) and not other, 'closure_impl / the pushed closure is the new allocation',
                 'closure_impl can push a closure that was not allocated by this execution of the instruction (origins: %s): a remembered closure carries the captured variables of '
                 'the activation that made it' % sorted({(q[0][2].rsplit('::', 1)[-1] if q[0][0] == 'call' else str(q[0])) for q in other}), f.loc(t.get('sp')))
+
+
+def s14(rep, w):
+    """a name denotes the variable with that *name*: the look-up of a local compares the identifier's text with the declared local's text (string
+    equality), in resolve_local and in the duplicate test of declare_variable. A digest of the name (a 32-bit hash and a length kept on the token)
+    makes two different identifiers one variable for some pair of names."""
+    r = rep.rule('S14', 'locals are found by comparing the text of the names (string equality), not a digest of it', floor=2)
+    for path in ('yarel::compiler::Compiler::resolve_local', P + 'declare_variable'):
+        f = w.require_fn(path, 'C06')
+        bodies = [f] + [g for g in w.fns.values() if g.kind == 'Closure' and g.parent == f.path]
+        text_eq = False
+        int_eq = []
+        for g in bodies:
+            org = origins(g)
+            for bi, t in g.calls():
+                n_ = callee_name(t) or ''
+                if 'PartialEq' in n_ and ('String' in n_ or 'str' in n_):
+                    text_eq = True
+            for b in g.blocks:
+                for s_ in b['s']:
+                    rr = s_.get('r', {})
+                    if rr.get('rv') == 'bin' and rr['op'] in ('Eq', 'Ne'):
+                        flds = operand_fields(g, org, rr['a']) | operand_fields(g, org, rr['b'])
+                        if flds & {'symbol', 'hash', 'name_hash', 'id', 'digest', 'key'} and not (flds & {'depth'}):
+                            int_eq.append(sorted(flds & {'symbol', 'hash', 'name_hash', 'id', 'digest', 'key'})[0])
+        r.check(text_eq and not int_eq, '%s compares names as text' % path.rsplit('::', 1)[-1],
+                '%s does not decide by the text of the names (string comparison: %s; comparisons of %s): two identifiers whose digests coincide are the same variable'
+                % (path.rsplit('::', 1)[-1], text_eq, sorted(set(int_eq)) or 'nothing else'), f.loc())
 
 
 def scope_exit_choosers(w):
